@@ -5,21 +5,21 @@ exit 0: the scenario ran clean; exit 2: it failed differently (HARNESS-ERROR).""
 from __future__ import annotations
 
 import json
+import os
 import sys
 
-from .core import cleanup_scratch, run_scenario
+from .core import cleanup_scratch, enter_private_cwd, run_scenario
 from .worker import load_prop
 
 
 def main(argv) -> int:
-    prop, path = argv[0], argv[1]
+    prop, path = argv[0], os.path.abspath(argv[1])
+    enter_private_cwd()
     with open(path) as fp:
         sc = json.load(fp)
     expect = sc.pop("expect", {})
     layer = (expect.get("info") or {}).get("layer")
     if layer in ("omp", "workqueue"):  # C19 mode=compiled: same threading layer as the recorded run
-        import os
-
         os.environ["NUMBA_THREADING_LAYER"] = layer
     mod = load_prop(prop)
     if sc.get("warmup_only"):
